@@ -28,14 +28,16 @@ import (
 type model struct {
 	g          *gen.DAG
 	stored     map[int]bool
-	tags       map[string]int // reference -> node (current tags only)
-	everTagged map[int]bool   // for classifying violations, never for verdicts
+	tags       map[string]int    // reference -> node (current tags only)
+	tagKey     map[string]string // reference -> key of the descriptor it was tagged with
+	keyLost    map[int]bool      // see markKeyLost; for classifying violations only
+	everTagged map[int]bool      // for classifying violations, never for verdicts
 	strays     map[string]bool
 	preds      [][]int // ground-truth direct predecessors (generator edges)
 }
 
 func newModel(g *gen.DAG) *model {
-	m := &model{g: g, stored: map[int]bool{}, tags: map[string]int{}, everTagged: map[int]bool{}, strays: map[string]bool{}}
+	m := &model{g: g, stored: map[int]bool{}, tags: map[string]int{}, tagKey: map[string]string{}, keyLost: map[int]bool{}, everTagged: map[int]bool{}, strays: map[string]bool{}}
 	m.preds = make([][]int, len(g.Nodes))
 	for _, nd := range g.Nodes {
 		for _, s := range g.SuccSet(nd.ID) {
